@@ -792,6 +792,14 @@ func (vc *VC) enterNode(fr *frame, n *Node, st0 *State, reach0 string) {
 			in = append(in, ed)
 		}
 	}
+	if len(n.preds) == 0 && n.blk.Index != 0 {
+		// a block without predecessors that is not the entry (the "recover" block of functions with defers):
+		// only reached by a recovered panic, which the safety obligations exclude
+		n.reach = "false"
+		n.env = map[ssa.Value]Val{}
+		n.st = st0.clone()
+		return
+	}
 	if len(n.preds) == 0 || (n.blk.Index == 0 && n.copy == 0) {
 		// function entry
 		n.env = map[ssa.Value]Val{}
